@@ -153,14 +153,72 @@ def synth_elf32(entry=0x8048054, body=b""):
     return bytes(h) + ph + body + b"\x90" * max(0, 32 - len(body))
 
 
+# ------------------------------------------------------------------------------------------------ string kinds
+
+def find_literal(s, b):
+    out, o = [], b.find(s)
+    while o >= 0:
+        out.append((o, len(s)))
+        o = b.find(s, o + 1)
+    return out
+
+
+class Rx:
+    """a regular-expression string of a fixed simple shape: literal prefix, ONE bounded repeat, literal suffix — for these
+    the match at a given start offset is unique or Python's greedy result is the longest one, which is what yara reports"""
+
+    def __init__(self, src, pysrc=None):
+        import re
+        self.src = src
+        self.re = re.compile(b"(?=(" + (pysrc or src).encode() + b"))", re.S)      # lookahead: every start offset, overlaps included
+
+    def findall(self, b):
+        return [(m.start(), len(m.group(1))) for m in self.re.finditer(b)]
+
+
+class Bomb:
+    """/(c{1,40}){1,40}d/ : on a long run of 'c' the regexp engine needs more than RE_MAX_FIBERS fibers and the scan fails
+    with ERROR_TOO_MANY_RE_FIBERS. Matches are computed analytically (c^k d, 1 <= k <= 1600, at every start inside the run)."""
+    src = "(c{1,40}){1,40}d"
+    ERR = 46
+    SAFE, SURE = 6, 3000     # runs up to SAFE never fail, runs from SURE always do; nothing in between is generated
+
+    def findall(self, b):
+        out = []
+        o = b.find(b"d")
+        while o >= 0:
+            k = 0
+            while o - k - 1 >= 0 and b[o - k - 1] == 0x63 and k < 1600:
+                k += 1
+                out.append((o - k, k + 1))
+            o = b.find(b"d", o + 1)
+        return sorted(out)
+
+    @staticmethod
+    def longest_run(b):
+        import re
+        return max((len(m.group(0)) for m in re.finditer(b"c+", b)), default=0)
+
+
+def str_findall(s, b):
+    return find_literal(s, b) if isinstance(s, (bytes, bytearray)) else s.findall(b)
+
+
+def str_src(s):
+    if isinstance(s, (bytes, bytearray)):
+        return "{ %s }" % " ".join("%02x" % x for x in s)
+    return "/%s/" % s.src
+
+
 # ------------------------------------------------------------------------------------------------ rule sets
 
 class RuleSet:
     """rules: list of dict(ns=<int>, flags=<subset of 'gp'>, strings=[bytes,...], cond=<tuple AST>); strings are referred
     to in conditions by their GLOBAL index (declaration order over the whole set)."""
 
-    def __init__(self, rules, imports, nsnames=("default", "n2", "n3")):
-        self.rules, self.imports, self.nsnames = rules, imports, nsnames
+    def __init__(self, rules, imports, nsnames=None):
+        self.rules, self.imports = rules, imports
+        self.nsnames = nsnames or ["default"] + ["n%d" % i for i in range(1, 1 + max(r["ns"] for r in rules))]
         k = 0
         for r in rules:
             r["sidx"] = list(range(k, k + len(r["strings"])))
@@ -215,11 +273,11 @@ class RuleSet:
             if r["ns"] != cur:
                 cur = r["ns"]
                 out.append("//@ns %s" % self.nsnames[cur])
-                out += ['import "%s"' % m for m in self.imports]
+                out += ['import "%s"' % m for m in self.imports]     # first thing in the code: OP_IMPORT before any rule
             mods = ("global " if "g" in r["flags"] else "") + ("private " if "p" in r["flags"] else "")
             s = ""
             if r["strings"]:
-                s = "strings: " + " ".join("$s%d = { %s }" % (gi, " ".join("%02x" % x for x in b)) for gi, b in zip(r["sidx"], r["strings"]))
+                s = "strings: " + " ".join("$s%d = %s" % (gi, str_src(b)) for gi, b in zip(r["sidx"], r["strings"]))
             out.append("%srule r%d { %s condition: %s }" % (mods, i, s, self.cond_src(r["cond"])))
         return "\n".join(out) + "\n"
 
@@ -243,15 +301,40 @@ class RuleSet:
         return "mr=%s mi=%s" % (";".join(rs), mi)
 
 
+class HarnessCrash(Exception):
+    """the real code died (crash / sanitizer report / unexpected output) — a finding, not an infrastructure error"""
+
+    def __init__(self, step, cmd, rc, stderr, case, source=None):
+        Exception.__init__(self, "%s: rc=%s" % (step, rc))
+        self.step, self.cmd, self.rc, self.stderr, self.case, self.source = step, cmd, rc, stderr, case, source
+
+    def replay_obj(self, engine, harness):
+        return {"kind": "harness-crash-or-sanitizer (%s)" % self.step, "rc": self.rc, "stderr": self.stderr[-3000:], "engine": engine,
+                "harness": harness, "command": " ".join(self.cmd), "case": self.case, "yara_source": self.source}
+
+
 def describe(harness_bin, rulesets, core):
     """Ask the compiled rules for the no_required_strings bit of every rule (a certificate read from YR_RULES)."""
+    uniq = []
+    seen = set()
+    for rs in rulesets:
+        if id(rs) not in seen:
+            seen.add(id(rs)); uniq.append(rs)
+    rulesets = uniq
     lines = ["d%d rs=%s" % (i, rs.source().encode().hex()) for i, rs in enumerate(rulesets)]
-    out, rc, err = core.run_lines([harness_bin, "--describe"], lines)
+    cmd = [harness_bin, "--describe"]
+    out, rc, err = core.run_parallel(cmd, lines)
     if rc != 0 or len(out) != len(lines):
-        raise RuntimeError("describe failed rc=%s %s %s" % (rc, err[-2000:], out[:3]))
+        done = {l.split(" ", 1)[0] for l in out}
+        k = min([i for i in range(len(lines)) if "d%d" % i not in done] or [0])   # a rule set without an answer (its process died)
+        # a scan of the empty buffer with that rule set reproduces the compilation
+        case = "crash rs=%s in=-~0 fl=0 to=0 ops=S/0/-/-/-/0 ep=0" % rulesets[k].source().encode().hex()
+        raise HarnessCrash("compiling a rule set (describe)", cmd, rc, err, case, rulesets[k].source())
     for rs, l in zip(rulesets, out):
         f = dict(t.split("=", 1) for t in l.split()[1:])
-        assert int(f["nrules"]) == len(rs.rules) and int(f["nstrings"]) == rs.nstrings, (l, rs.source())
+        if int(f["nrules"]) != len(rs.rules) or int(f["nstrings"]) != rs.nstrings:
+            raise HarnessCrash("compiled rule set has an unexpected shape: " + l, cmd, rc, err,
+                               "crash rs=%s in=-~0 fl=0 to=0 ops=S/0/-/-/-/0 ep=0" % rs.source().encode().hex(), rs.source())
         rs.noreq = [c == "1" for c in f["noreq"]]
         rs.fixed = [None if x == "-" else int(x) for x in f["fixed"].split(",")] if f.get("fixed") else []
 
@@ -295,16 +378,20 @@ class Input:
             v = elf_module_field(b)
             if v is not None: mods.append("1:%d" % v)
             cands = []
+            err = None
             for si, s in enumerate(strs):
-                o = b.find(s)
                 fx = rs.fixed[si] if si < len(rs.fixed) else None
-                while o >= 0:
+                for o, ln in str_findall(s, b):
                     if fx is None or fx == base + o:
-                        cands.append((o, si, len(s)))
-                    o = b.find(s, o + 1)
+                        cands.append((o, si, ln))
+                if isinstance(s, Bomb) and Bomb.longest_run(b) >= Bomb.SURE:
+                    err = Bomb.ERR
             cands.sort()
-            blks.append("%d.%d.%d.%s.%s.%s" % (base, p, 1 if a else 0, "-" if ep is None else str(ep), "&".join(mods) or "-",
-                                                "&".join("%d:%d:%d" % (si, o, l) for o, si, l in cands) or "-"))
+            if err is not None:
+                assert not cands, "a block that makes the regexp engine fail must not contain other matches (their order is not modelled)"
+            blks.append("%d.%d.%d.%s.%s.%s.%s" % (base, p, 1 if a else 0, "-" if ep is None else str(ep), "&".join(mods) or "-",
+                                                   "&".join("%d:%d:%d" % (si, o, l) for o, si, l in cands) or "-",
+                                                   "-" if err is None else str(err)))
             base += p
         return "|".join([str(len(d)), ",".join("%d.%d.%d" % r for r in reads) or "-",
                          ",".join("%d.%d" % h for h in hashok) or "-"] + blks)
